@@ -85,6 +85,7 @@ type vf2Stack struct {
 	srv    *PfcpServer
 	srvwg  sync.WaitGroup
 	psmark chan struct{}
+	stopped bool
 }
 
 func vf2NewStack(k int, maxrt int, timeout time.Duration) (*vf2Stack, error) {
@@ -178,20 +179,28 @@ func (s *vf2Stack) mcSync(d time.Duration) bool {
 
 // stop mirrors UpfApp's shutdown: stop the PFCP server, then close the driver's components
 func (s *vf2Stack) stop(d time.Duration) error {
-	s.srv.Stop()
-	for _, c := range s.conns {
-		c.Close()
+	if s.stopped {
+		return nil
 	}
-	s.mux.PopHandler(s.mc)
-	s.mc.Close()
-	s.mux.Close()
-	s.ps.Close()
-	s.gtpu.Close()
-	for _, c := range s.gnbs {
-		c.Close()
-	}
+	s.stopped = true
 	done := make(chan struct{})
-	go func() { s.srvwg.Wait(); s.wg.Wait(); close(done) }()
+	go func() {
+		s.srv.Stop()
+		for _, c := range s.conns {
+			c.Close()
+		}
+		s.mux.PopHandler(s.mc)
+		s.mc.Close()
+		s.mux.Close()
+		s.ps.Close()
+		s.gtpu.Close()
+		for _, c := range s.gnbs {
+			c.Close()
+		}
+		s.srvwg.Wait()
+		s.wg.Wait()
+		close(done)
+	}()
 	select {
 	case <-done:
 		return nil
